@@ -34,7 +34,32 @@ def string_compares(cond):
                   [y for y in A.walk(x["args"][0]) if y["k"] == "StringLiteral"]
             if lit and "first" in A.show(x):
                 out.append((lit[0]["value"], x))
+        # the comparison chain moved into a predicate function: notSaved(it->first) with `return name == "a" || name == "b" ...;`
+        if x["k"] == "CallExpr" and x.get("callee_in_root") and PROG is not None and any("first" in A.show(a_) for a_ in x.get("args", [])):
+            f = PROG.functions.get(x.get("callee_sig"))
+            body = f.get("body") if f else None
+            if body and len(body.get("c", [])) == 1 and body["c"][0]["k"] == "ReturnStmt" and body["c"][0].get("c"):
+                pdecls = {p_["decl"] for p_, a_ in zip(f["params"], x["args"]) if "first" in A.show(a_)}
+                for y in A.walk(body["c"][0]["c"][0]):
+                    if y["k"] == "CXXOperatorCallExpr" and y.get("op") == "==" and len(y.get("args", [])) == 2:
+                        lit = [z for z in A.walk(y) if z["k"] == "StringLiteral"]
+                        refs = [z for z in A.walk(y) if z["k"] == "DeclRefExpr" and z.get("decl") in pdecls]
+                        if lit and refs:
+                            out.append((lit[0]["value"], x))
+                # only a pure disjunction of such comparisons is a name list
+                ret = A.strip(body["c"][0]["c"][0])
+
+                def pure(n_):
+                    n_ = A.strip(n_)
+                    if n_.get("k") == "BinaryOperator" and n_.get("op") == "||":
+                        return pure(n_["c"][0]) and pure(n_["c"][1])
+                    return n_.get("k") == "CXXOperatorCallExpr" and n_.get("op") == "=="
+                if not pure(ret):
+                    out = [o_ for o_ in out if o_[1] is not x]
     return out
+
+
+PROG = None
 
 
 def top_ops(cond):
@@ -57,6 +82,8 @@ def fpzero_test(n):
 
 
 def run(chk, prog):
+    global PROG
+    PROG = prog
     chk.assume("boost::program_options semantics as documented (config parser rejects unknown names; repeated keys compose vectors)",
                "a value printed with max_digits10 significant digits is read back exactly (IEEE-754 round trip)")
     t = O.Table(prog)
